@@ -89,6 +89,8 @@ func c20WorldStream(e *Env, r *RNG) {
 	if !e.Quick {
 		nWorld, nTail = 6000, 8000
 	}
+	// directed: the committed replay of the recorded finding C20-template-fragment-error-position
+	c20Diag(e, "a := 1\nb := 2\ny := len('total: {a ? b : c}hello ')", "directed: compile error inside a template fragment", true, true)
 	// ---- tail: the last token is a template string, the bracket before it is never closed
 	for i := 0; i < nTail; i++ {
 		tpl := "'" + Pick(r, c20TailTexts) + "{" + Pick(r, c20TailFrags) + "}" + Pick(r, c20TailTexts)
@@ -114,14 +116,14 @@ func c20WorldStream(e *Env, r *RNG) {
 		ag := c20LexCheck(e, []string{src}, "template tail")
 		e.R.Case("tail "+src, strings.Contains(src, "\n"))
 		if kind == "closed twin" {
-			// parse only: a compile error INSIDE a fragment (an undefined name) carries a position
-			// relative to the fragment, not to the text — observed on the unchanged tree, not this
-			// stream's subject and not filed yet; the closed text must parse
+			// the closed text must parse; compiled, an error INSIDE a fragment (an undefined name)
+			// carries a position relative to the fragment, not to the text: the recorded finding
+			// C20-template-fragment-error-position (judged and attributed by c20Diag)
 			o := c20Observe(src, false)
 			if o.PErr != nil || o.Panic != "" {
 				e.R.Spec(src, fmt.Sprintf("a closed bracket around a template string does not parse: %v %s", o.PErr, o.Panic), "")
+				continue
 			}
-			continue
 		}
 		c20Diag(e, src, "template string as the last token: "+kind, true, ag[0])
 	}
